@@ -18,3 +18,6 @@ def run(ctx, rep):
     more4.rule_extent_pairs(mod, rep)
     from ..rules import more5
     more5.rule_abs_modulus(mod, rep)
+    from ..rules import more6
+    import re as _re
+    more6.rule_precision_family(mod, rep, floor=20, sel=lambda f: _re.search(r"gscon|lacon|langs|PivotGrowth|gssvx|sum1|max1", f.name) is not None)
